@@ -29,6 +29,21 @@ func checkC05(c *Ctx) {
 	checkOrderIndexIntegrity(c, "C05.R6")
 }
 
+// sqlLeadColumn: the column a WHERE conjunct tests — its first identifier, inside parentheses and a cte: mark.
+func sqlLeadColumn(w string) string {
+	w = strings.ToLower(strings.TrimSpace(strings.TrimPrefix(w, "cte:")))
+	w = strings.TrimLeft(w, "( ")
+	i := 0
+	for i < len(w) && (w[i] == '_' || w[i] == '.' || (w[i] >= 'a' && w[i] <= 'z') || (w[i] >= '0' && w[i] <= '9')) {
+		i++
+	}
+	col := w[:i]
+	if j := strings.LastIndex(col, "."); j >= 0 {
+		col = col[j+1:]
+	}
+	return col
+}
+
 // expireStmtFns: functions containing an EXPIRE statement (UPDATE … state=queued WHERE state=leased AND lease_until <= now).
 func expireStmts(p *Program, backend string) []*SQLStmt {
 	var out []*SQLStmt
@@ -185,6 +200,20 @@ func checkSweepBeforeSelect(c *Ctx, rule string) {
 			}
 			if throttle != nil {
 				checkThrottleClock(c, rule, throttle)
+				// one throttle for the whole store: the sweep it grants must release every expired lease, not only
+				// those of the caller's route/target (the refused callers rely on the sweep that was granted)
+				for _, s := range exp {
+					var extra []string
+					for _, w := range append(append([]string(nil), s.St.where...), s.St.optWhere...) {
+						col := sqlLeadColumn(w)
+						if col != "state" && col != "lease_until" {
+							extra = append(extra, sqNorm(w))
+						}
+					}
+					c.Check(len(extra) == 0, rule, m.Key(s)+":the throttled sweep releases every expired lease", s.Pos,
+						"conjuncts on state and lease_until only",
+						fmt.Sprintf("the sweep granted by the store-wide throttle %s is narrowed by %s: an expired lease outside that filter is not released, and the throttle refuses the sweep of the caller that would have released it (its message is not offered although it is due)", throttle.Name(), strings.Join(extra, " AND ")))
+				}
 			}
 		}
 		c.Check(n > 0, rule, be+":dequeue-transaction-found", "", fmt.Sprintf("%d transaction function(s) with sweep and candidate selection", n), "no transaction function contains both the sweep and the candidate selection")
